@@ -49,17 +49,47 @@ UseProg(u, n, args) ==
                                       <<Ret(Call("q", [i \in 1..n |-> Id(<<"x", "y", "z">>[i])]))>>)),
                        Text(<<"[">>), Emit(Call("h", <<Id("f")>> \o args)), Text(<<"]">>)>>
 
+\* recursive functions (a parameter is used after the recursive call returns; nested and repeated calls)
+RecProgs(k) ==
+  [ sum  |-> <<Let("s", FnLit(<<"m">>, <<Code(If(Bin("==", Id("m"), IntL(0)), <<Ret(IntL(0))>>)), Ret(Bin("+", Call("s", <<Bin("-", Id("m"), IntL(1))>>), Id("m")))>>)),
+               Text(<<"[">>), Emit(Call("s", <<IntL(k)>>)), Text(<<"]">>)>>,
+    down |-> <<Let("c", FnLit(<<"m">>, <<Code(If(Bin("==", Id("m"), IntL(0)), <<Ret(Str(<<"d","o","n","e">>))>>)), Ret(Call("c", <<Bin("-", Id("m"), IntL(1))>>))>>)),
+               Text(<<"[">>), Emit(Call("c", <<IntL(k)>>)), Text(<<"]">>)>>,
+    fib  |-> <<Let("b", FnLit(<<"m">>, <<Code(If(Bin("<", Id("m"), IntL(2)), <<Ret(Id("m"))>>)),
+                                          Ret(Bin("+", Call("b", <<Bin("-", Id("m"), IntL(1))>>), Call("b", <<Bin("-", Id("m"), IntL(2))>>)))>>)),
+               Text(<<"[">>), Emit(Call("b", <<IntL(k)>>)), Text(<<"]">>)>>,
+    after |-> <<Let("g", FnLit(<<"m", "t">>, <<Code(If(Bin("==", Id("m"), IntL(0)), <<Ret(Id("t"))>>)),
+                                               Let("r", Call("g", <<Bin("-", Id("m"), IntL(1)), Str(<<"i">>)>>)),
+                                               Ret(Bin("+", Id("t"), Id("r")))>>)),
+               Text(<<"[">>), Emit(Call("g", <<IntL(k), Str(<<"o">>)>>)), Text(<<"]">>)>>,
+    twice |-> <<Let("e", FnLit(<<"m">>, <<Ret(Id("m"))>>)),
+               Text(<<"[">>), Emit(Call("e", <<Call("e", <<IntL(k)>>)>>)), Emit(Call("e", <<Str(<<"x">>)>>)), Emit(Call("e", <<IntL(k)>>)), Text(<<"]">>)>> ]
+RecNames == {"sum", "down", "fib", "after", "twice"}
+RECURSIVE Fib(_)
+Fib(k) == IF k < 2 THEN k ELSE Fib(k - 1) + Fib(k - 2)
+RECURSIVE Rep(_, _)
+Rep(c, k) == IF k = 0 THEN <<>> ELSE <<c>> \o Rep(c, k - 1)
+RecText(nm, k) ==
+  CASE nm = "sum"  -> <<"[">> \o IntChars((k * (k + 1)) \div 2) \o <<"]">>
+    [] nm = "down" -> <<"[", "d", "o", "n", "e", "]">>
+    [] nm = "fib"  -> <<"[">> \o IntChars(Fib(k)) \o <<"]">>
+    [] nm = "after" -> <<"[">> \o (IF k = 0 THEN <<"o">> ELSE <<"o">> \o Rep("i", k)) \o <<"]">>
+    [] nm = "twice" -> <<"[">> \o IntChars(k) \o <<"x">> \o IntChars(k) \o <<"]">>
+
 VARIABLES n, links, dflt, args, use, res
 vars == <<n, links, dflt, args, use, res>>
 NoRet == [t |-> "none"]
 
 Prog == CallerLets \o <<Let("f", FnLit(SubSeq(PNames, 1, n), Body(links, dflt)))>> \o UseProg(use, n, args)
 
-Init == /\ n \in 0..MaxParams /\ links = <<>> /\ dflt = NoRet /\ args = <<>> /\ use = "none" /\ res = [k |-> "none"]
-AddLink == /\ dflt = NoRet /\ Len(links) < MaxLinks /\ (n = 3 => Len(links) < 1)
+Init == \/ /\ n \in 0..MaxParams /\ links = <<>> /\ dflt = NoRet /\ args = <<>> /\ use = "none" /\ res = [k |-> "none"]
+        \/ \E nm \in RecNames, k \in 0..5 :      \* recursion family: n = -1, use = name, args = <<k>>
+              /\ n = -1 /\ links = <<>> /\ dflt = NoRet /\ args = <<k>> /\ use = nm
+              /\ res = Run(RecProgs(k)[nm], WithHelpers(EmptyScope), EmptyScope, "")
+AddLink == /\ n >= 0 /\ dflt = NoRet /\ Len(links) < MaxLinks /\ (n = 3 => Len(links) < 1)
            /\ \E c \in Conds(n), r \in Rets(n) : links' = Append(links, [c |-> c, r |-> r])
            /\ UNCHANGED <<n, dflt, args, use, res>>
-SetDefault == /\ dflt = NoRet /\ \E r \in Rets(n) : dflt' = r
+SetDefault == /\ n >= 0 /\ dflt = NoRet /\ \E r \in Rets(n) : dflt' = r
               /\ UNCHANGED <<n, links, args, use, res>>
 AddArg == /\ dflt # NoRet /\ Len(args) < n /\ \E a \in ArgPool : args' = Append(args, a)
           /\ UNCHANGED <<n, links, dflt, use, res>>
@@ -93,8 +123,9 @@ UseText(u, v) ==
     [] u = "cond" -> IF Truthy(v) THEN <<"T">> ELSE <<"F">>
     [] u = "cmp"  -> IF v = S(<<"A">>) THEN <<"t","r","u","e">> ELSE <<"f","a","l","s","e">>
 
+RecTheorem == n = -1 => (res.k = "out" /\ PieceText(res.pieces) = RecText(use, args[1]) /\ res.depth = 1)
 ChainTheorem ==
-  (res.k # "none" /\ ChainSpecified(ArgVals) /\ ~(use = "cmp" /\ ChainValue(ArgVals).t # "str")) =>
+  (n >= 0 /\ res.k # "none" /\ ChainSpecified(ArgVals) /\ ~(use = "cmp" /\ ChainValue(ArgVals).t # "str")) =>
      /\ res.k = "out"
      /\ PieceText(res.pieces) = UseText(use, ChainValue(ArgVals))
      /\ Len(res.log) = ChainProbes(ArgVals)
@@ -106,6 +137,6 @@ Expect(r) == CASE r.k = "out" -> [k |-> "out", pieces |-> r.pieces, log |-> r.lo
                [] OTHER       -> [k |-> "unspec"]
 
 EmitCase == res.k = "none" \/
-            PrintT("CASE " \o ToJson([gen |-> "GenFuncs", src |-> Unparse(Prog), data |-> EmptyScope,
-                                       shape |-> use \o ":" \o ToString(n) \o ":" \o ToString(Len(links)), expect |-> Expect(res)]))
+            PrintT("CASE " \o ToJson([gen |-> "GenFuncs", src |-> Unparse(IF n = -1 THEN RecProgs(args[1])[use] ELSE Prog), data |-> EmptyScope,
+                                       shape |-> use \o ":" \o ToString(n) \o ":" \o ToString(IF n = -1 THEN args[1] ELSE Len(links)), expect |-> Expect(res)]))
 =============================================================================
